@@ -20,7 +20,7 @@ pub fn spec(tier: Tier) -> RunSpec {
 a full request then RST without reading, stall then close, idle connections held across later operations, and queued variants performed while the server is SIGSTOPped (the acceptor finds dead connections in its backlog). \
 Invariant after the history: the process is running, all worker threads 0..N-1 exist in /proc/<pid>/task, a valid probe is answered 200 with the right body, and with N-1 idle connections pinning N-1 workers a request on an N-th connection is answered. \
 section transport-faults (in-process): Server::process on a mock transport with read error, write error at byte k, Ok(0), flush error must return (Ok or Err) without panicking. \
-The pool half (a panicking or blocking job never removes a worker) runs under shuttle in the C07 engine and is reported there. \
+section pool-under-failing-jobs (shuttle engine /verif/sched; evaluations there are schedules): pool sizes 1..8 with task lists that contain panicking jobs, followed by full-width rendezvous groups - a panicking or blocking job must never remove a worker. \
 Non-trivial = the history contains a fault operation followed by at least N further operations; distinct by operation sequence.",
         &["every stalled or idle connection is closed before the probes (there is no read timeout: N open idle connections legitimately occupy N workers)",
           "a probe that neither answers nor closes within 5 s while process and worker set are healthy is reported as inconclusive, not as a violation"],
